@@ -167,6 +167,23 @@ def nodeQuotationIn (cache : List (Str × View)) (path : Str) (fileExists : Bool
 def nodeQuotation (root : View) (path : Str) (fileExists : Bool) (filepath content : Str) : Except Err (List Str) :=
   nodeQuotationIn (entryCache root) path fileExists filepath content
 
+/-! ## ErrorRender.render: assembly of the whole report -/
+
+/-- `ErrorRender.__build_message` (error_render.py:83-86) on arguments already converted by `__arg_to_str` -/
+def buildMessage (args : List Str) : Str := '(' :: (Str.join [',', ' '] args ++ [')'])
+
+/-- `ErrorRender.render` (error_render.py:22-28): `"\n".join([*traces, *quotation])`, a line feed, `name: message`.
+    The stack trace lines (`__build_stacktrace`, which parses `traceback.format_exception` text with a regular expression),
+    the exception's class path and `str(node)` are inputs, not modelled. -/
+def renderText (traces quotation : List Str) (name message : Str) : Str :=
+  Str.join ['\n'] (traces ++ quotation) ++ '\n' :: (name ++ ':' :: ' ' :: message)
+
+/-- the whole report for an error raised with the node at `path` -/
+def nodeRenderIn (cache : List (Str × View)) (path : Str) (fileExists : Bool) (filepath content : Str)
+    (traces : List Str) (name message : Str) : Except Err Str := do
+  let q ← nodeQuotationIn cache path fileExists filepath content
+  pure (renderText traces q name message)
+
 /-! ## ErrorCollector of the self-hosted parser (0-based token spans) -/
 
 /-- `ErrorCollector._quotation_lines` (syntax.py:367-373) with `_cause_token`, `_cause_line`, `_cause_token_range`, `_cause_line_mark` -/
